@@ -179,7 +179,68 @@ func (g *zgen) jsonObj(depth int) string {
 // snippet emits a few lines that display something.
 func (g *zgen) snippet(lines *[]string, usesJSON *bool) {
 	add := func(s string) { *lines = append(*lines, s) }
-	switch g.t.Draw(15) {
+	switch g.t.Draw(17) {
+	case 16: // dictionaries holding values that cannot be compared (functions, objects, classes) next to entries that differ
+		cls := "类" + g.v()
+		add(fmt.Sprintf("定义%s：\n\t其名 = “n”\n", cls))
+		o := g.v()
+		add(fmt.Sprintf("令%s = （新建%s）", o, cls))
+		odd := []string{"显示", o, cls, "取随机数"}
+		ks := g.keys()
+		if len(ks) < 2 {
+			ks = append(ks, "补", "充")
+		}
+		mk := func(diffAt int) string {
+			var it []string
+			for i, k := range ks {
+				v := fmt.Sprintf("%d", i)
+				if i == diffAt {
+					v = "“异”"
+				}
+				if i%2 == 0 && i != diffAt {
+					v = odd[(i/2)%len(odd)]
+				}
+				it = append(it, fmt.Sprintf("“%s” = %s", k, v))
+			}
+			return "【" + strings.Join(it, "，") + "】"
+		}
+		x, y := g.v(), g.v()
+		add(fmt.Sprintf("令%s = %s", x, mk(-1)))
+		add(fmt.Sprintf("令%s = %s", y, mk(1+2*g.t.Draw((len(ks)+1)/2))))
+		for _, op := range []string{"为", "不为"} {
+			add(fmt.Sprintf("（显示：%s %s %s）", x, op, y))
+		}
+		add(fmt.Sprintf("（显示：以【%s】（%s：%s））", x, pick(g.t, []string{"包含", "寻找"}), y))
+	case 15: // in-place methods on numbers that were never copied: parameters, 得到 results, loop variables
+		// (whatever a program does to them must not outlive the statement sequence that did it:
+		// the same program text is executed again and again in this process)
+		n := []string{"0", "1", "6", "-5", "255", "256", "257", "1000", "2.5", "-0", "20 + 22", "3 * 2"}[g.t.Draw(12)]
+		m := pick(g.t, []string{"自增", "自减"})
+		switch g.t.Draw(4) {
+		case 0:
+			f := "函" + g.v()
+			add(fmt.Sprintf("如何%s？\n\t输入N\n\t以N（%s：%d）\n\t输出N\n", f, m, 1+g.t.Draw(3)))
+			add(fmt.Sprintf("（显示：（%s：%s）、（%s：%s）、%s）", f, n, f, n, n))
+		case 1:
+			f, r := "函"+g.v(), g.v()
+			add(fmt.Sprintf("如何%s？\n\t输入A、B\n\t输出A + B\n", f))
+			add(fmt.Sprintf("（%s：%s、0）得到%s", f, n, r))
+			add(fmt.Sprintf("以%s（%s：2）", r, m))
+			add(fmt.Sprintf("（显示：%s、（%s：%s、0）、%s）", r, f, n, n))
+		case 2:
+			l, last := g.v(), g.v()
+			add(fmt.Sprintf("令%s = 【“甲”，“乙”，“丙”，%s】", l, n))
+			add(fmt.Sprintf("令%s = 0", last))
+			add(fmt.Sprintf("以序、项遍历%s：\n\t以序（%s：10）\n\t%s = 序", l, m, last))
+			add(fmt.Sprintf("（显示：%s、%s）", last, l))
+			add(fmt.Sprintf("以序、项遍历%s：\n\t（显示：序）", l))
+		case 3:
+			d := g.v()
+			add(fmt.Sprintf("令%s = 【“k” = %s，“m” = 【%s，%s】】", d, n, n, n))
+			add(fmt.Sprintf("以%s # “k”（%s：1）", d, m))
+			add(fmt.Sprintf("以%s # “m” # 0（%s：1）", d, m))
+			add(fmt.Sprintf("（显示：%s、%s、%s 之 数目、以【1，2】（寻找：9））", d, n, d))
+		}
 	case 14: // an error raised before the callee has run a statement, after earlier calls at other lines
 		f := "函" + g.v()
 		add(fmt.Sprintf("如何%s？\n\t输入甲\n\t输出甲 + 1\n", f))
@@ -513,8 +574,31 @@ func (g *zgen) httpScenario(sc *c11Scenario) {
 		"头 之 所有索引", "参 之 所有索引",
 		"参 之 所有值", "当前请求 之 路径",
 	})
-	mode := g.t.Draw(3)
+	mode := g.t.Draw(5)
 	switch mode {
+	case 3, 4:
+		// the program answers with an HTTP响应 whose header dictionary it builds itself: several
+		// names, some of them equal up to letter case (one header on the wire, several values —
+		// their order is observable by the client)
+		names := []string{"X-Trace", "x-trace", "X-TRACE", "Set-Cookie", "set-cookie", "Content-Type", "content-type", "X-乙", "Vary", "vary"}
+		nk := 2 + g.t.Draw(5)
+		st := g.t.Draw(len(names))
+		var kv []string
+		for i := 0; i < nk; i++ {
+			kv = append(kv, fmt.Sprintf("“%s” = “值%d”", names[(st+i)%len(names)], i))
+		}
+		body := pick(g.t, []string{"“体”", "【“b” = 1，“a” = 【“z” = 1，“y” = 2】】", "【3，2，1】", "12"})
+		hd := "【" + strings.Join(kv, "，") + "】"
+		if mode == 3 {
+			sc.Main = fmt.Sprintf("导入《@HTTP》\n输入当前请求\n输出（新建HTTP响应：%d、%s、%s）\n", []int{200, 201, 404}[g.t.Draw(3)], body, hd)
+		} else {
+			// headers added one by one to the default dictionary of the response
+			var ls []string
+			for i := 0; i < nk; i++ {
+				ls = append(ls, fmt.Sprintf("以响 之 头部（写入：“%s”、“值%d”）", names[(st+i)%len(names)], i))
+			}
+			sc.Main = fmt.Sprintf("导入《@HTTP》\n输入当前请求\n令响 = （新建HTTP响应：200、%s）\n%s\n输出响\n", body, strings.Join(ls, "\n"))
+		}
 	case 0:
 		sc.Main = fmt.Sprintf("输入当前请求\n令头 = 当前请求 之 头部\n令参 = 当前请求 之 查询参数\n输出%s\n", expr)
 	case 1:
